@@ -4,8 +4,8 @@ from ._generic import make, STD_TRUST
 globals().update(
     make(
         pid="C13",
-        props=["JaqalProofs/Props/C13.lean", "JaqalProofs/Props/C13Exact.lean", "JaqalProofs/Props/C13Run.lean", "JaqalProofs/Props/C13End.lean"],
-        targets=["JaqalProofs.Props.C13", "JaqalProofs.Props.C13Exact", "JaqalProofs.Props.C13Run", "JaqalProofs.Props.C13End"],
+        props=["JaqalProofs/Props/C13.lean", "JaqalProofs/Props/C13Exact.lean", "JaqalProofs/Props/C13Run.lean", "JaqalProofs/Props/C13End.lean", "JaqalProofs/Props/C13EndFull.lean"],
+        targets=["JaqalProofs.Props.C13", "JaqalProofs.Props.C13Exact", "JaqalProofs.Props.C13Run", "JaqalProofs.Props.C13End", "JaqalProofs.Props.C13EndFull"],
         diffs=[("harness.agents.used_diff", 700, 5000), ("harness.agents.c13_history", 500, 6000), ("harness.agents.c13_edge", 300, 5000), ("harness.agents.c13_combo", 250, 2000), ("harness.agents.c13_traps", 500, 3000)],
         trusted=[
             STD_TRUST,
